@@ -108,6 +108,12 @@ fn run_child(env: &Env, key_dir: &Path, kill_call: Option<&(String, u32)>, tag: 
     // effect (the readiness-polling calls epoll_wait/epoll_ctl would swamp the enumeration with idle points)
     const SET: &str = "%file,%network,read,write,writev,pwrite64,close,fsync,fdatasync,ftruncate,fcntl,dup,dup2,dup3,pipe2,lseek";
     cmd.arg("-f").arg("-qq").arg("-o").arg(&log).arg("-e").arg(format!("trace={}", SET));
+    if let Ok(extra) = std::env::var("VERIF_STRACE_INJECT") {
+        // e.g. slow chown/chmod (delay injection): the order of effects must not depend on how long a call takes
+        if !extra.is_empty() {
+            cmd.arg("-e").arg(format!("inject={}", extra));
+        }
+    }
     if let Some((call, k)) = kill_call {
         // strace counts invocations separately for every syscall of an injection set: name the one call
         cmd.arg("-e").arg(format!("inject={}:signal=SIGKILL:when={}", call, k));
@@ -390,16 +396,39 @@ fn main() {
                 let _ = std::fs::set_permissions(&key_dir, std::fs::Permissions::from_mode(0o777));
             }
             reset_host(&env, &key_dir);
+            // every third run: chown and chmod take 0.3 s each (the order of effects must not depend on that)
+            let slow = round % 3 == 2;
+            if slow {
+                std::env::set_var("VERIF_STRACE_INJECT", "chown,chmod,fchmodat,fchownat,lchown:delay_enter=300000");
+                stats.class("order:slow-chown-and-chmod");
+            }
             let r = run_child(&env, &key_dir, None, "order");
+            std::env::remove_var("VERIF_STRACE_INJECT");
             stats.eval();
             n_runs += 1;
             let dir_text = key_dir.display().to_string();
             let mut restricted_at: Option<usize> = None;
             let mut first_create: Option<(usize, String)> = None;
+            // a call that is still running when another thread's call is logged shows as "<unfinished ...>" and takes
+            // effect at its "<... resumed>" line
+            let pid_of = |l: &str| l.split_whitespace().next().unwrap_or("").to_string();
+            let mut pending_chmod: Option<String> = None;
             for (i, l) in r.trace.iter().enumerate() {
+                if let Some(p) = &pending_chmod {
+                    if l.starts_with(p.as_str()) && (l.contains("chmod resumed>") || l.contains("fchmodat resumed>")) {
+                        if restricted_at.is_none() {
+                            restricted_at = Some(i);
+                        }
+                        pending_chmod = None;
+                    }
+                }
                 if l.contains(&dir_text) {
                     if (l.contains("chmod(") || l.contains("fchmodat(")) && l.contains("0700") && restricted_at.is_none() {
-                        restricted_at = Some(i);
+                        if l.contains("<unfinished") {
+                            pending_chmod = Some(pid_of(l));
+                        } else {
+                            restricted_at = Some(i);
+                        }
                     }
                     if l.contains("O_CREAT") && l.contains(&format!("{}/", dir_text)) && first_create.is_none() {
                         first_create = Some((i, l.clone()));
@@ -425,7 +454,7 @@ fn main() {
         }
         let _ = n_runs;
         let _ = std::fs::remove_dir_all(&work);
-        stats.write_worker_files(&params.out, &params.prop, "syscall-order part: uninjected strace runs of the real key keeper on a key directory that does not exist yet / exists with mode 0777; oracle: chmod 0700 (and chown root) of the key directory precede the first O_CREAT inside it, and the directory ends with mode 0700 owner root.", &["strace sees every file-system call of the single-threaded key keeper child"], t0.elapsed().as_secs_f64());
+        stats.write_worker_files(&params.out, &params.prop, "syscall-order part: uninjected strace runs of the real key keeper on a key directory that does not exist yet / exists with mode 0777, every third run with chown/chmod slowed down to 0.3 s each by strace delay injection; oracle: chmod 0700 (and chown root) of the key directory precede the first O_CREAT inside it, and the directory ends with mode 0700 owner root.", &["strace sees every file-system call of the single-threaded key keeper child"], t0.elapsed().as_secs_f64());
         std::process::exit(0);
     }
     let scenarios = [Scenario::FreshLatch, Scenario::RestartWithKeyOnDisk, Scenario::Rotation, Scenario::LocalKeyTruncated, Scenario::LocalKeyGarbage, Scenario::LocalKeyWrongGuidInside, Scenario::LocalKeyEmpty, Scenario::StoreBlockedFirst];
